@@ -205,7 +205,8 @@ def param_pairs(rng, n: int, stats: dict, selector_args: bool = False):
         stats["params:" + prel] = stats.get("params:" + prel, 0) + 1
         stats["skeleton:" + sk] = stats.get("skeleton:" + sk, 0) + 1
         pairs.append(dict(macro="param-relations", use=sk, l=-1, r=-1, header=header, envs=[], a=a, b=b,
-                          rel=dict(params=prel), selector_arg=any(x in SELECTOR_ARGS for x in args)))
+                          rel=dict(params=prel), selector_arg=any(x in SELECTOR_ARGS for x in args),
+                          tie=dict(key=key, params=params, args=args, use=use)))
     return pairs
 
 
@@ -330,8 +331,9 @@ def calc_pairs(rng, n: int, stats: dict):
             a = TOKEN_SITES[sid].format(N1=n1, N2=n2)
             b = TOKEN_SITES[sid].format(N1=v1, N2=v2)
         stats["site:" + sid] = stats.get("site:" + sid, 0) + 1
+        ea3, _ = expression(names, rng)
         pairs.append(dict(macro="int-name-relations", use=sid, l=-1, r=-1, header=header, envs=[], a=PRE + a + "\n", b=PRE + b + "\n",
-                          rel=dict(names=rels)))
+                          rel=dict(names=rels), tie=dict(exprs=[ea3], names=[n for n, _, _ in names])))
     return pairs
 
 
